@@ -8,10 +8,18 @@ LONGS = ["in", "input", "input-file", "inc", "include", "out", "output", "opt", 
          "name", "num", "number", "level", "list", "limit", "mode", "max", "maxsize", "min", "file", "filter", "force"]
 SCALAR = ["int", "str", "optint", "dbl"]
 CONT = ["vecint", "vecstr", "setint", "listint", "dequeint", "arr3", "sarr3", "fwdint", "msetint", "stackint", "queueint",
-        "pqint", "tup", "bits8"]
+        "pqint", "tup", "bits8", "vecbool", "dynbits", "mapsi"]
 ARR = ("arr3", "sarr3")
-NO_UNIQ = ("setint", "stackint", "queueint", "pqint", "tup", "bits8")          # setUniqueData() refused / meaningless
+NO_UNIQ = ("setint", "stackint", "queueint", "pqint", "tup", "bits8", "vecbool", "dynbits")   # setUniqueData() refused / meaningless
 SORTABLE = ("vecint", "listint", "dequeint", "fwdint", "arr3", "sarr3")
+BITS = ("bits8", "vecbool", "dynbits")                     # values are bit positions; unsetFlag() supported
+GROWBITS = ("vecbool", "dynbits")                          # std::vector<bool>, container::DynamicBitset: grow as needed
+PAIRABLE = ("flag", "int", "str", "dbl", "vecint", "setint", "listint", "dequeint", "vecstr")   # first variable of DEST_PAIR (driver support)
+
+
+PATTERNS = {1: "[a-z]+", 2: "[0-9]{2,4}", 3: "a.*z", 4: "[A-Z][a-z0-9_]*"}
+PAT_GOOD = {1: ["a", "abc", "zzzzz"], 2: ["12", "007", "2024"], 3: ["az", "a-z", "abcXYZ_09z"], 4: ["A", "Name_1", "Zx9"]}
+PAT_BAD = {1: ["", "aB", "a1", "A"], 2: ["1", "12345", "12a", ""], 3: ["a", "za", "abc", "Az"], 4: ["a", "NAME", "N-1", ""]}
 
 
 def T(s):
@@ -25,15 +33,21 @@ def S(codes):
 def new_arg(kind):
     init = {"flag": False, "int": 0, "dbl": 0, "level": 0, "str": [], "optint": [], "arr3": [0, 0, 0], "sarr3": [0, 0, 0], "tup": [0, [], 0],
             "bits8": [False] * 8}.get(kind, [])
-    return {"s": 0, "l": [], "pos": False, "kind": kind, "vm": "none" if kind == "flag" else "opt" if kind == "level" else "req", "mand": False,
-            "card": {"t": "dflt", "a": 0, "b": 0}, "checks": [], "formats": [], "sep": 44, "clear": False, "sort": False,
+    if kind == "valint":
+        init = 0
+    # isize: initial size of a vector<bool>/DynamicBitset destination; value arguments (kind valint, DEST_VAR_VALUE): setval = the
+    # value stored, dst = index of the argument that owns the variable (0: the argument itself, fixed up by Gen.cfg), chkorig;
+    # pair: second variable of a DEST_PAIR argument, set to val when the argument is used
+    return {"s": 0, "l": [], "pos": False, "kind": kind, "vm": "none" if kind in ("flag", "valint") else "opt" if kind == "level" else "req", "mand": False,
+            "card": {"t": "dflt", "a": 0, "b": 0}, "checks": [], "formats": [], "sep": 59 if kind == "mapsi" else 44, "clear": False, "sort": False,
             "uniq": "no", "multi": False, "req": [], "exc": [], "init": init, "depr": False, "unset": False,
-            "cspell": 0, "grp": 0, "hidden": False, "dashes": False, "mix": False}
+            "cspell": 0, "grp": 0, "hidden": False, "dashes": False, "mix": False,
+            "isize": 0, "setval": 0, "dst": 0, "chkorig": True, "pair": {"on": False, "val": 0, "init": 0}}
 
 
 def is_int_kind(k):
     return k in ("int", "optint", "level", "vecint", "setint", "listint", "dequeint", "arr3", "sarr3", "fwdint", "msetint", "stackint",
-                 "queueint", "pqint", "bits8")
+                 "queueint", "pqint", "bits8", "vecbool", "dynbits")
 
 
 def is_cont(k):
@@ -53,7 +67,7 @@ class Gen:
         longs = r.sample(LONGS, n)
         args = []
         for i in range(n):
-            kind = r.choice(kinds) if kinds else r.choice(["flag", "flag", "int", "int", "str", "optint", "dbl", "dbl", "level", "level"] + CONT)
+            kind = r.choice(kinds) if kinds else r.choice(["flag", "flag", "int", "int", "str", "optint", "dbl", "dbl", "level", "level", "valint", "valint"] + CONT)
             a = new_arg(kind)
             ks = r.random()
             if ks < 0.2:
@@ -80,13 +94,36 @@ class Gen:
             elif kind == "bits8":
                 if r.random() < 0.3:
                     a["init"] = [False, True, False, False, False, False, False, True]
+            elif kind in GROWBITS:
+                a["isize"] = r.choice([0, 0, 1, 1, 2, 3, 5, 10, 16])
+                a["init"] = sorted(r.sample(range(a["isize"]), r.randint(0, min(3, a["isize"])))) if r.random() < 0.5 else []
+            elif kind == "mapsi":
+                if r.random() < 0.3:
+                    a["init"] = [[T("b"), 5], [T("p"), 1]]          # ascending keys
+            elif kind == "valint":
+                # value argument: own variable, or the variable of an earlier value argument
+                a["dst"] = i + 1
+                a["init"] = r.choice([0, 0, 4, -1])
+                owners = [j + 1 for j, b in enumerate(args) if b["kind"] == "valint" and b["dst"] == j + 1]
+                if owners and r.random() < 0.6:
+                    a["dst"] = r.choice(owners)
+                    a["init"] = args[a["dst"] - 1]["init"]
+                # a value equal to the original one makes the "modified only once" check blind (outcome left open): rare
+                a["setval"] = a["init"] if r.random() < 0.05 else r.choice([v for v in (1, 2, 3, 7, 42, -5) if v != a["init"]])
+                a["chkorig"] = r.random() < 0.7
             elif is_cont(kind) and kind not in ARR and kind != "tup":
                 if r.random() < 0.3:
                     a["init"] = [1, 2] if is_int_kind(kind) else [T("p"), T("q")]
                     if kind in ("fwdint", "stackint", "pqint"):
                         a["init"] = [2, 1]
+            if kind in BITS and r.random() < 0.2:
+                a["unset"] = True                                   # clear the given positions instead of setting them
+            if kind in PAIRABLE and r.random() < 0.12:
+                a["pair"] = {"on": True, "val": r.choice([1, 9, -2, 77]), "init": r.choice([0, 0, 5])}
             if self.rich:
                 self._decorate(a)
+            if kind == "valint" and a["dst"] != i + 1:
+                a["mand"] = False                                   # (two mandatory checked arguments on one variable: no valid line)
             args.append(a)
         cfgd = {"abbr": r.random() < 0.8, "endvalues": False, "args": args, "hcons": []}
         if allow_pos and r.random() < 0.3:
@@ -104,13 +141,18 @@ class Gen:
         r = self.r
         k = a["kind"]
         # a pre-filled optional/container destination already "has a value" for the mandatory check (undocumented): not generated
-        if k != "flag" and r.random() < 0.15 and not ((is_cont(k) or k == "optint") and a["init"] not in ([], [0, 0, 0])):
+        # a bit set whose positions are cleared (unsetFlag) "has no value" after its use either: not generated as mandatory
+        if k != "flag" and r.random() < 0.15 and not ((is_cont(k) or k == "optint") and a["init"] not in ([], [0, 0, 0])) and not a["unset"]:
             a["mand"] = True
         if k == "level":
             if r.random() < 0.4:
                 a["checks"].append({"k": "upper", "a": a["init"] + r.choice([2, 3, 5]), "b": 0, "vals": []})
             return
-        if is_int_kind(k) and k != "bits8" and r.random() < 0.4:
+        if k == "valint":
+            if r.random() < 0.2:
+                a["card"] = r.choice([{"t": "none", "a": 0, "b": 0}, {"t": "max", "a": 2, "b": 0}])
+            return
+        if is_int_kind(k) and k != "bits8" and r.random() < (0.15 if k in GROWBITS else 0.4):
             c = r.choice(["lower", "upper", "range", "values"])
             if c == "lower":
                 a["checks"].append({"k": "lower", "a": r.choice([0, 1, 5, -10]), "b": 0, "vals": []})
@@ -124,7 +166,11 @@ class Gen:
             if c in ("lower",) and r.random() < 0.3:
                 a["checks"].append({"k": "upper", "a": r.choice([50, 500]), "b": 0, "vals": []})
         if k in ("str", "vecstr") and r.random() < 0.4:
-            c = r.choice(["minlen", "maxlen", "values", "fmt"])
+            c = r.choice(["minlen", "maxlen", "values", "fmt", "pattern", "pattern"])
+            if c == "pattern":
+                pid = r.randint(1, 4)
+                a["checks"].append({"k": "pattern", "a": pid, "b": 0, "vals": [], "pat": T(PATTERNS[pid])})
+                return
             if c == "minlen":
                 a["checks"].append({"k": "minlen", "a": r.choice([1, 2, 3]), "b": 0, "vals": []})
             elif c == "maxlen":
@@ -137,7 +183,7 @@ class Gen:
                     a["checks"].append({"k": "maxlen", "a": 6, "b": 0, "vals": []})
         if is_cont(k):
             if r.random() < 0.3:
-                a["sep"] = ord(r.choice(";:+/"))
+                a["sep"] = ord(r.choice(";:+/"))            # (never ',' for key-value containers: it is their pair separator)
             if r.random() < 0.25 and k not in ARR and k != "tup":
                 a["clear"] = True
             if r.random() < 0.25 and k in SORTABLE:
@@ -208,8 +254,12 @@ class Gen:
             if r.random() < 0.3:
                 s = "-" + s
             return s
+        if a["kind"] == "mapsi":
+            return r.choice(["a", "b", "c", "k1", "key", "p", "zz"]) + "," + str(r.choice([0, 1, 7, -3, 42, 1000, r.randint(-99999, 99999)]))
         if is_int_kind(a["kind"]):
             lo, hi, vals = -1000000, 1000000, None
+            if a["kind"] in GROWBITS:
+                lo, hi = 0, 70                                  # positions: unsigned, small enough for a cheap projection
             for c in a["checks"]:
                 if c["k"] == "lower": lo = max(lo, c["a"])
                 if c["k"] == "upper": hi = min(hi, c["a"] - 1)
@@ -221,12 +271,17 @@ class Gen:
             if lo > hi:
                 return None
             v = r.choice([lo, hi, r.randint(lo, hi), r.randint(lo, min(hi, lo + 20))])
+            if a["kind"] in GROWBITS and r.random() < 0.5:
+                v = r.choice([x for x in (0, 1, 2, 3, 9, 10, 11, 14, 15, 16) if lo <= x <= hi] or [v])   # around the sizes 1, 2, 10, 16
             s = str(v)
             if v >= 0 and r.random() < 0.05:
                 s = "+" + s
             if r.random() < 0.05:
                 s = (s[0] + "0" + s[1:]) if s[0] in "+-" else "0" + s
             return s
+        for c in a["checks"]:
+            if c["k"] == "pattern":
+                return r.choice(PAT_GOOD[c["a"]])
         mn, mx, vals = 0, 12, None
         for c in a["checks"]:
             if c["k"] == "minlen": mn = max(mn, c["a"])
@@ -251,6 +306,17 @@ class Gen:
             return r.choice(["8", "9", "x", "100"])
         if a["kind"] == "tup":
             return None
+        if a["kind"] == "mapsi":
+            return r.choice(["a", "a,", ",1", "a,x", "a,1.5", "a,1,2", "k=1", "a,2147483648"])
+        if a["kind"] in GROWBITS:
+            # no negative and no huge positions (unsigned destination without documented limit)
+            opts = ["x", "1x", "x1", "1.5", "1 2"]
+            for c in a["checks"]:
+                if c["k"] == "lower" and c["a"] > 0: opts += [str(c["a"] - 1)] * 3
+                if c["k"] == "upper": opts += [str(c["a"])] * 3
+                if c["k"] == "range": opts += [str(c["b"])] * 2 + ([str(c["a"] - 1)] * 2 if c["a"] > 0 else [])
+                if c["k"] == "values": opts += ["4", "77"] * 2
+            return r.choice(opts)
         if is_int_kind(a["kind"]):
             opts = ["x", "1x", "x1", "1.5", "99999999999", "2147483648", "", "--", "1 2"]
             for c in a["checks"]:
@@ -261,6 +327,7 @@ class Gen:
             return r.choice(opts)
         opts = []
         for c in a["checks"]:
+            if c["k"] == "pattern": opts += [v for v in PAT_BAD[c["a"]] if v != ""] * 2
             if c["k"] == "minlen" and c["a"] > 1: opts.append("a" * (c["a"] - 1))
             if c["k"] == "maxlen": opts.append("b" * (c["a"] + 1))
             if c["k"] == "values": opts.append("purple")
@@ -312,6 +379,14 @@ class Gen:
         for i, a in enumerate(args):
             if a["mand"] and (i + 1) not in chosen:
                 return None
+        # value arguments on one variable: "modified only once" - at most one checked argument, and it comes first
+        vgroups = {}
+        for i in chosen:
+            if args[i - 1]["kind"] == "valint":
+                vgroups.setdefault(args[i - 1]["dst"], []).append(i)
+        for d, members in vgroups.items():
+            if sum(1 for i in members if args[i - 1]["chkorig"]) > 1:
+                return None
         # order: requiring before required, excluding irrelevant (partner absent)
         r.shuffle(chosen)
         order = []
@@ -326,11 +401,27 @@ class Gen:
                     break
             else:
                 return None
+        for d, members in vgroups.items():
+            chk = [i for i in members if args[i - 1]["chkorig"]]
+            first = min(members, key=order.index)
+            if chk and chk[0] != first:
+                x, y = order.index(chk[0]), order.index(first)
+                order[x], order[y] = order[y], order[x]
+                for k, i in enumerate(order):                  # the swap must keep requiring arguments in front
+                    if any(j in order[:k] for j in args[i - 1]["req"]):
+                        return None
         uses = []
         for i in order:
             a = args[i - 1]
             if a["kind"] == "flag":
                 uses.append([i, []])
+                continue
+            if a["kind"] == "valint":
+                uses.append([i, []])
+                # without the check the variable may be modified again (when the cardinality allows a second use)
+                if not a["chkorig"] and (a["card"]["t"] == "none" or (a["card"]["t"] == "max" and a["card"]["a"] >= 2)):
+                    if r.random() < 0.4:
+                        uses.append([i, []])
                 continue
             if a["kind"] == "level":
                 up = min([c["a"] for c in a["checks"] if c["k"] == "upper"] + [10**6])
@@ -404,6 +495,8 @@ class Gen:
         return uses
 
     def _canon(self, a, v):
+        if a["kind"] == "mapsi":
+            return v.split(",")[0]                    # duplicates are duplicates of the key
         if a["kind"] == "dbl":
             try: return float(v)
             except ValueError: return v
@@ -416,6 +509,8 @@ class Gen:
         return v
 
     def _canon_init(self, a, x):
+        if a["kind"] == "mapsi":
+            return S(x[0])
         return x if is_int_kind(a["kind"]) else S(x)
 
     # ------------------------------------------------------------ spellings
@@ -453,7 +548,7 @@ class Gen:
         form = force if force in forms else r.choice(forms)
         key = {"short": "-" + chr(a["s"]) if a["s"] else None, "long": "--" + S(a["l"]),
                "abbr": "--" + (r.choice(self.abbrevs(cfgd, i)) if self.abbrevs(cfgd, i) else S(a["l"]))}[form]
-        if a["kind"] == "flag" or not vals:
+        if a["kind"] in ("flag", "valint") or not vals:
             return [key], form, (chr(a["s"]) if form == "short" else None)
         # value text(s)
         if is_cont(a["kind"]):
@@ -496,15 +591,15 @@ class Gen:
             u = uses[k]
             a = args[u[0] - 1]
             # group consecutive short flags behind one dash (optionally ending in a valued short key)
-            if a["kind"] == "flag" and a["s"] and r.random() < 0.4:
+            if a["kind"] in ("flag", "valint") and a["s"] and r.random() < 0.4:
                 grp = [chr(a["s"])]
                 j = k + 1
-                while j < len(uses) and args[uses[j][0] - 1]["kind"] == "flag" and args[uses[j][0] - 1]["s"] and r.random() < 0.7:
+                while j < len(uses) and args[uses[j][0] - 1]["kind"] in ("flag", "valint") and args[uses[j][0] - 1]["s"] and r.random() < 0.7:
                     grp.append(chr(args[uses[j][0] - 1]["s"])); j += 1
                 tailw = []
                 if j < len(uses):
                     b = args[uses[j][0] - 1]
-                    if b["s"] and b["kind"] != "flag" and not b["pos"] and uses[j][1] and r.random() < 0.5:
+                    if b["s"] and b["kind"] not in ("flag", "valint") and not b["pos"] and uses[j][1] and r.random() < 0.5:
                         w, form, ch = self.spell_use(cfgd, uses[j], force="short")
                         if ch and w[0].startswith("-" + ch):
                             grp.append(w[0][1:])      # "n" or "n5"
@@ -576,6 +671,21 @@ def mutations(g, cfgd, line):
             vals = [g.good_value(a) for _ in range(4)]
             if all(v is not None for v in vals) and (a["uniq"] == "no" or len(set(int(v) for v in vals)) == 4):
                 add("array_overflow", line[:k] + [[u[0], vals]] + line[k + 1:])
+    # value arguments: a second modification of the variable that a checked value argument protects
+    for k, u in enumerate(line):
+        a = args[u[0] - 1]
+        if a["kind"] == "valint":
+            for j, b in enumerate(args):
+                if b["kind"] == "valint" and b["dst"] == a["dst"] and not b["depr"] and (a["chkorig"] or b["chkorig"]) and j + 1 != u[0]:
+                    pos = r.randint(k + 1, len(line)) if b["chkorig"] else r.randint(0, k)
+                    add("value_twice", line[:pos] + [[j + 1, []]] + line[pos:])
+    # key-value containers: a key given twice where duplicates are errors
+    for k, u in enumerate(line):
+        a = args[u[0] - 1]
+        if a["kind"] == "mapsi" and a["uniq"] == "error" and u[1] and not a["pos"]:
+            dup = u[1][0].split(",")[0] + "," + str(r.randint(0, 99))
+            pos = r.randint(1, len(u[1]))
+            add("dup_key", line[:k] + [[u[0], u[1][:pos] + [dup] + u[1][pos:]]] + line[k + 1:])
     # unknown keys
     words = spell(line)
     if words is not None:
@@ -617,7 +727,7 @@ def mutations(g, cfgd, line):
             b = args[j - 1]
             if b["depr"] or b["pos"]:
                 continue
-            v = [] if b["kind"] == "flag" else [g.good_value(b)]
+            v = [] if b["kind"] in ("flag", "valint") else [g.good_value(b)]
             if v and v[0] is None:
                 continue
             pos = r.randint(k + 1, len(line))
@@ -636,7 +746,7 @@ def mutations(g, cfgd, line):
             if usedS and others:
                 j = r.choice(others)
                 b = args[j - 1]
-                v = [] if b["kind"] == "flag" else [g.good_value(b)]
+                v = [] if b["kind"] in ("flag", "valint") else [g.good_value(b)]
                 if not (v and v[0] is None):
                     if is_cont(b["kind"]) and b["card"]["t"] in ("exact", "range"):
                         continue
@@ -668,7 +778,7 @@ def mutations(g, cfgd, line):
     for i, a in enumerate(args):
         if a["depr"] and not a["pos"] and words is not None:
             key = ("-" + chr(a["s"])) if a["s"] else "--" + S(a["l"])
-            v = [] if a["kind"] == "flag" else [g.good_value(a) or "1"]
+            v = [] if a["kind"] in ("flag", "valint") else [g.good_value(a) or "1"]
             add("deprecated_used", words=[key] + v + words)
     # single dash, empty long key
     if words is not None:
